@@ -1,16 +1,19 @@
 """C05 — when the engine goes quiet every workflow is finished or explicitly waiting (engine-level: Mode-A trace differential + monitors; see harness/engine_suites.py)."""
 from __future__ import annotations
 
-from harness import engine_suites, synth_suites
+from harness import conc_suite, engine_suites, synth_suites
 
 RULE = ("random workflows (1-5 stages, every join type, scripted task outcomes incl. polling / transient / jump / suspend) x "
         "delivery schedules (fifo | random order | random + redelivery of unacknowledged messages | arbitrary incl. early re-polls), "
         "every op is applied to the REAL engine and the Lean model, the state line after every op is compared; "
         "a trace is distinct by (spec, op list) and non-trivial when it has >= 8 ops and a non-FIFO choice or an injected op;"
         " PLUS the synthetic-stage family (harness/synth_suites.py, IMPLEMENTATION-ONLY: monitors on real-engine traces, no model line): workflows of 1-3 top-level stages (single | chain | two parallel roots | fan-in), some with 1-2 pre-declared STAGE_BEFORE and / or STAGE_AFTER children (children 1 task, parents 0-2; task results succeed | terminal | fail-continue | poll then succeed | suspend), stored through the real store, driven by fifo | random | redelivery | starve | arbitrary schedules, cancel before a random step or inside the parent-waits-for-child window, signals for suspended stages, recovery sweeps injected into healthy runs, and (every fourth unit) kill after k commits + restart + sweep(s) + late redelivery + drain; judged by smon_c05 (children included) and the transition-table monitor; "
-        "PLUS the pause / resume dimension (harness/synth_suites.py, family 'pause', IMPLEMENTATION-ONLY: monitors on real-engine traces, no model line; signatures prefixed pause:): plain workflows (engine_suites.gen_spec w0, sometimes one suspending task) AND synthetic-stage ones; operator ops p = store.pause (only while the workflow is RUNNING), u = Orchestrator.unpause, r = store.resume injected at random steps into fifo | random | redelivery | starve schedules, combined with a cancel (often issued together with the un-pause, or while paused), signals and a second pause; every third unit is the directed 'parked' member (2-3 parallel stages all parked PAUSED, then un-pause or cancel + un-pause, random order); in 20 % of the runs nobody un-pauses, otherwise the operator keeps at it until nothing is paused (settle_pause: unpause, drain, store.resume if the row is still PAUSED with nothing parked); judged by smon_c05 (after un-pause + drain the workflow is final or explicitly waiting; a workflow / stage still PAUSED because nobody un-paused it counts as explicitly waiting; still PAUSED after the un-pause idiom = still-paused-after-unpause) and the transition-table monitor")
+        "PLUS the pause / resume dimension (harness/synth_suites.py, family 'pause', IMPLEMENTATION-ONLY: monitors on real-engine traces, no model line; signatures prefixed pause:): plain workflows (engine_suites.gen_spec w0, sometimes one suspending task) AND synthetic-stage ones; operator ops p = store.pause (only while the workflow is RUNNING), u = Orchestrator.unpause, r = store.resume injected at random steps into fifo | random | redelivery | starve schedules, combined with a cancel (often issued together with the un-pause, or while paused), signals and a second pause; every third unit is the directed 'parked' member (2-3 parallel stages all parked PAUSED, then un-pause or cancel + un-pause, random order); in 20 % of the runs nobody un-pauses, otherwise the operator keeps at it until nothing is paused (settle_pause: unpause, drain, store.resume if the row is still PAUSED with nothing parked); judged by smon_c05 (after un-pause + drain the workflow is final or explicitly waiting; a workflow / stage still PAUSED because nobody un-paused it counts as explicitly waiting; still PAUSED after the un-pause idiom = still-paused-after-unpause) and the transition-table monitor; "
+        "PLUS the operator restart dimension (harness/synth_suites.py, family 'restart', IMPLEMENTATION-ONLY: monitors on real-engine traces, no model line; signatures prefixed restart:): plain (gen_spec w0 / w1, no jumps) and synthetic-stage workflows are run to the drain (70 %) or for k random steps, then op R<i> = Orchestrator.restart (-> RestartStage, code RR.<s>) 1-2 times on a random COMPLETED top-level stage (15 %: on a stage that is not completed - must be ignored), sometimes a cancel before / after (restart inside a canceled workflow must be refused), fifo | random drain; judged by smon_c05 (drained => final or explicitly waiting; SUCCEEDED => every top-level stage continuable; no RUNNING stage in a finished workflow)"
+        " PLUS the concurrency-limit / cancel-before-start family (harness/conc_suite.py, IMPLEMENTATION-ONLY, signatures prefixed conc:): 2-4 workflows with one pipeline_config_id, is_limit_concurrent, limit 1 | 2, keep_waiting_pipelines on | off in ONE database and queue, started together or staggered, store.cancel() (the flag only) on some of them BEFORE their start, Orchestrator.cancel at random moments, in-order or random delivery; oracles: drained => every workflow final or BUFFERED while the limit is really used up, never more RUNNING than the limit, a workflow whose cancel flag is set is final once the queue is drained")
 ASSUMPTIONS = ["delays are abstracted: budget-respecting schedules deliver a delayed message only when no immediate one is pending",
                "per-workflow circuit breaker disabled in the harness (volatile state outside the model)",
+               "restart dimension: only top-level stages are restarted; a signature adjudicated as a real defect and awaiting a decision (synth_suites.PENDING: R1 restart of a parent does not re-arm its synthetic children, R2 a restarted stage whose StartStage is dropped by the re-finalised workflow) is evaluated but REPORTED only with VERIF_SYNTH_PENDING=1",
                "pause / resume dimension: 'un-paused' means the operator idiom of the repo's tests and demos (Orchestrator.unpause, then store.resume when the row is still PAUSED with nothing parked), repeated up to three times at quiescence; store.pause is only issued while the workflow row is RUNNING (store.pause() itself writes PAUSED over any status, also a final one: operator misuse, not generated); a message that raises on every delivery is dead-lettered after max_attempts deliveries (real check_and_move_expired) and the first such loss names the cause of what follows (`…@<msg>-dead-lettered:<exception>-while-workflow-<status>`)",
                "synthetic-stage family: 'explicitly waiting' = some stage, child included, SUSPENDED / PAUSED; 'every top-level stage continuable' is checked on top-level stages, 'no stage left running' on children too; a terminal failure absorbed by continuePipelineOnFailure of the stage or its parent does not have to fail the workflow",
                "synthetic-stage family: the nine defects it found on the unchanged tree (S1-S9) were repaired (F44-F51); its pending gate (synth_suites.PENDING) is empty, every synth: signature is reported"]
@@ -27,6 +30,10 @@ def run(ctx) -> None:
     synth_suites.run_for(ctx, "C05")
     # pause / resume dimension (plain and synthetic-stage workflows): implementation-only as well
     synth_suites.run_for(ctx, "C05", family="pause")
+    # operator restart dimension: implementation-only as well
+    synth_suites.run_for(ctx, "C05", family="restart")
+    # concurrency limit (BUFFERED / StartWaitingWorkflows / purge) and cancel-before-start: implementation-only, several workflows
+    conc_suite.run_for(ctx, "C05")
 
 
 def search(ctx) -> None:
@@ -34,6 +41,8 @@ def search(ctx) -> None:
 
 
 def replay(ctx, body) -> int:
+    if conc_suite.is_replay(body):
+        return conc_suite.replay(ctx, body)
     if synth_suites.is_synth_replay(body):
         return synth_suites.replay(ctx, body)
     return engine_suites.replay(ctx, body)
